@@ -317,7 +317,7 @@ impl Scn
     {
         let pre = format!("{}/history/", DIR);
         let fs = self.sys.fs.lock().unwrap();
-        fs.files.keys().filter(|p| p.starts_with(&pre) && !p.ends_with(".tmp")).filter_map(|p| self.names.rids.get(&p[pre.len()..]).cloned()).collect()
+        fs.files.keys().filter(|p| p.starts_with(&pre) && crate::project::is_ticket_name(&p[pre.len()..])).filter_map(|p| self.names.rids.get(&p[pre.len()..]).cloned()).collect()
     }
 
     pub fn set_env(&mut self, v : &str)
